@@ -21,6 +21,8 @@ import NutsProofs.Lemmas.ZSetOrder
 import NutsProofs.Lemmas.SkiplistRank
 import NutsProofs.Lemmas.Isolation
 import NutsProofs.Pins.Zset
+import NutsProofs.Pins.TxApi
+import NutsProofs.Pins.TxApiZset
 namespace NutsProofs.C07
 open Nuts Nuts.Model Nuts.Model.ZSetA NutsProofs NutsProofs.ZOrd
 
@@ -261,5 +263,14 @@ theorem C07_witness_skiplist :
   refine ⟨?_, by decide +kernel, by decide +kernel, by decide +kernel, by decide +kernel⟩
   refine ⟨⟨by decide, by decide⟩, ⟨by decide, by decide⟩, ⟨by decide, by decide⟩, ⟨by decide, by decide⟩, trivial, ?_, trivial, trivial⟩
   constructor <;> decide +kernel
+
+/-- **regenerated tie.** On this run, the sorted-set calls of the transactional API (which record each queues, the
+score encoding in the key, the checks against the committed sorted set, the arguments handed to the skiplist
+for the rank and score ranges) and `tx.put` are the source lines `Nuts.Model.Tx` was written from
+(`NutsProofs.Facts.expectedTxApiCore`, `expectedTxApiZset`). -/
+theorem C07_tx_api_regenerated :
+    NutsProofs.Facts.txApiOfCore = NutsProofs.Facts.expectedTxApiCore ∧
+    NutsProofs.Facts.txApiOfZset = NutsProofs.Facts.expectedTxApiZset :=
+  ⟨NutsProofs.Facts.tx_api_core_ok, NutsProofs.Facts.tx_api_zset_ok⟩
 
 end NutsProofs.C07
